@@ -344,6 +344,7 @@ func runC02(c *run.Ctx) {
 		kk = 3
 	}
 	Seqs(c, fragAll(), 1, kk, func(in []byte, _ []int) { eval(gs, in, true) })
+	SeqsS(c, "exotic", fragCoreExotic(), 1, 2, func(in []byte, _ []int) { eval(gs, in, false) })
 	if c.Shard == 0 {
 		c.Notes["policies"] = float64(len(bs))
 		c.Notes["attribute_alphabet"] = float64(len(c02Attrs))
